@@ -144,6 +144,7 @@ type inboxRoles struct {
 	schedule    *ssa.Function // contains the CAS guarding Scheduler.Schedule
 	schedCAS    *atomicOp
 	worker      *ssa.Function // function handed to Scheduler.Schedule
+	workerWrap  *ssa.Function // the forwarding closure actually handed over, if any
 	loop        *ssa.Function // calls PopN and Processer.Invoke
 	start       *ssa.Function // Inboxer.Start implementation
 	stop        *ssa.Function
@@ -233,15 +234,10 @@ func (w *World) findInboxRolesUncached() *inboxRoles {
 				if len(cc.Args) == 1 {
 					if mc, ok := cc.Args[0].(*ssa.MakeClosure); ok {
 						wf := mc.Fn.(*ssa.Function)
-						// bound method wrapper -> the method
-						if wf.Synthetic != "" {
-							for _, b := range wf.Blocks {
-								for _, in := range b.Instrs {
-									if c := callOf(in); c != nil && c.StaticCallee() != nil {
-										wf = c.StaticCallee()
-									}
-								}
-							}
+						// bound method wrapper, or a literal closure that only forwards -> the method
+						if t := thinWrapperTarget(wf); t != nil {
+							ir.workerWrap = wf
+							wf = t
 						}
 						ir.worker = wf
 					}
@@ -313,4 +309,26 @@ func (w *World) findInboxRolesUncached() *inboxRoles {
 	aliasRole(ir.worker, "(*actor.Inbox).process")
 	aliasRole(ir.loop, "(*actor.Inbox).run")
 	return ir
+}
+
+
+// thinWrapperTarget: fn does nothing but call one static callee (a bound-method wrapper, or
+// `func() { x.m() }`): that callee, else nil.
+func thinWrapperTarget(fn *ssa.Function) *ssa.Function {
+	var target *ssa.Function
+	for _, b := range fn.Blocks {
+		for _, in := range b.Instrs {
+			switch x := in.(type) {
+			case *ssa.Call:
+				if x.Call.StaticCallee() == nil || target != nil {
+					return nil
+				}
+				target = x.Call.StaticCallee()
+			case *ssa.Return, *ssa.UnOp, *ssa.DebugRef, *ssa.FieldAddr, *ssa.Field:
+			default:
+				return nil
+			}
+		}
+	}
+	return target
 }
